@@ -598,6 +598,7 @@ func r05_4(c *Ctx, rule string) {
 	for _, pt := range c.prefixTests(loop) {
 		n++
 		ok, why := sepTerminated(c, pt.prefix, true, 0)
+		ok = ok || pt.sepChecked
 		c.R.Check(ok, rule, pt.name+"/separator-terminated", c.pos(pt.site), "the prefix is only ever '' or dir + Separator", "the removed-directory prefix is not separator-terminated ("+why+"): deleting directory 'a' suppresses the delete of sibling 'ab'")
 		c.R.Check(isFieldLoad(pt.subject, "fsutil.currentPath.path"), rule, pt.name+"/subject", c.pos(pt.site), "tested against the destination entry's path", "the prefix test is not applied to the destination entry's path")
 	}
@@ -645,6 +646,28 @@ func r05_4(c *Ctx, rule string) {
 		}
 	}
 	isRecord := func(in ssa.Instruction) bool {
+		if strings.HasPrefix(cell, "phi:") {
+			// a register variable: it is assigned where the value that flows
+			// into its phi web is computed
+			v, isV := in.(ssa.Value)
+			if !isV {
+				return false
+			}
+			if _, isC := v.(*ssa.Const); isC {
+				return false
+			}
+			feeds := false
+			for _, r := range eng.Referrers(v) {
+				if ph, isPhi := r.(*ssa.Phi); isPhi && phiWeb(ph) == cell {
+					feeds = true
+				}
+			}
+			if !feeds {
+				return false
+			}
+			ok2, _ := sepTerminated(c, v, false, 0)
+			return ok2
+		}
 		st, ok := in.(*ssa.Store)
 		if !ok || locOfAddr(st.Addr) != cell {
 			return false
